@@ -110,6 +110,18 @@ struct Codec<Tracked>
   static Tracked make(long long t) { return Tracked(t); }
   static long long read(const Tracked& v) { return v.tok(); }
 };
+template <>
+struct Codec<BoxA>
+{
+  static BoxA make(long long t) { return BoxA(t); }
+  static long long read(const BoxA& v) { return v.v; }
+};
+template <>
+struct Codec<BoxB>
+{
+  static BoxB make(long long t) { return BoxB(t); }
+  static long long read(const BoxB& v) { return v.v; }
+};
 template <class E>
 struct Codec<E, std::enable_if_t<std::is_enum_v<E>>>
 {
